@@ -13,6 +13,7 @@ from cnfgen.graphs import (BipartiteGraph, DirectedGraph, Graph, readGraph,
                            writeGraph)
 from cnfgen.clitools.graph_args import make_graph_from_spec
 
+from checks import registry
 from detsim.core import Violation, call, exc_signature
 from detsim.refmodels import graphref
 from detsim.refmodels.graphref import (RefBipartite, RefDirected, RefSimple)
@@ -139,6 +140,10 @@ def generate(rng, config):
                       "explicit": rng.random() < 0.5,
                       "write_chunk": rng.choice([None, None, 1, 5])},
             "load": _gen_load(rng, fmt), "faults": []}
+    if config == "roundtrip":
+        # the locale of the process (what open() without an encoding uses)
+        case["locale"] = rng.choice([None, None, None, "ascii", "latin-1",
+                                     "cp1252"])
     if config == "roundtrip" and rng.random() < 0.35:
         # the graph that was read is written again, possibly in another
         # format, and read again (files are converted between tools)
@@ -227,14 +232,15 @@ def _mk(case):
             BipartiteGraph(g["L"], g["R"], name)
         ref = RefBipartite(g["L"], g["R"])
     elif t == "simple":
-        G = Graph(g["n"]) if name is None else Graph(g["n"], name)
+        G = registry.grown(Graph, g["n"], name)
         ref = RefSimple(g["n"])
     else:
-        G = DirectedGraph(g["n"]) if name is None else \
-            DirectedGraph(g["n"], name)
+        G = registry.grown(DirectedGraph, g["n"], name)
         ref = RefDirected(g["n"])
+    # the graph object has a history (batches, a refused batch, growth,
+    # removal and re-insertion): what is written is its final state
+    registry.with_history(G, g["edges"], len(g["edges"]))
     for u, v in g["edges"]:
-        G.add_edge(u, v)
         ref.add(u, v)
     return G, ref
 
@@ -412,6 +418,8 @@ def _judge(data, res, ctx, fmt, gtype, where, eio=False):
 
 def execute(case, ctx):
     fs = SimFS(on_fire=ctx.fault)
+    if case.get("locale"):
+        fs.locale_encoding = case["locale"]
     gtype = case["type"]
     fmt = case["format"]
     ld = case["load"]
